@@ -27,23 +27,36 @@ def session(job):
     objs = [mk(d) for d in job["D"]]
     snap = [repr(o) if isinstance(o, list) else o.tobytes() for o in objs]
     dist = job["dist"]
-    out = []
-    for i in range(len(objs)):
-        for j in range(len(objs)):
-            try:
-                with warnings.catch_warnings():
-                    warnings.simplefilter("ignore")
-                    if dist == "sliced":
-                        v = persim.sliced_wasserstein(objs[i], objs[j], M=job["M"])
-                    elif dist == "heat":
-                        v = persim.heat(objs[i], objs[j], sigma=job["sigma"])
-                    else:
-                        v = getattr(persim, dist)(objs[i], objs[j])
-                out.append({"dist": fl(v)})
-            except Exception as ex:
-                out.append({"raised": type(ex).__name__ + ": " + str(ex)[:120]})
+    def calls():
+        out = []
+        for i in range(len(objs)):
+            for j in range(len(objs)):
+                try:
+                    with warnings.catch_warnings():
+                        warnings.simplefilter("ignore")
+                        if dist == "sliced":
+                            v = persim.sliced_wasserstein(objs[i], objs[j], M=job["M"])
+                        elif dist == "heat":
+                            v = persim.heat(objs[i], objs[j], sigma=job["sigma"])
+                        else:
+                            v = getattr(persim, dist)(objs[i], objs[j])
+                    out.append({"dist": fl(v)})
+                except Exception as ex:
+                    out.append({"raised": type(ex).__name__ + ": " + str(ex)[:120]})
+        return out
+    out = calls()
     mutated = [k for k, o in enumerate(objs) if (repr(o) if isinstance(o, list) else o.tobytes()) != snap[k]]
-    return {"dists": out, "mutated": mutated}
+    res = {"dists": out, "mutated": mutated}
+    if job.get("D2"):      # overwrite every argument object IN PLACE (same objects, same shapes) and make all calls again
+        for o, new in zip(objs, job["D2"]):
+            fresh = mk(new)
+            if isinstance(o, list):
+                for row, nrow in zip(o, fresh):
+                    row[:] = nrow
+            elif o.size:
+                o[...] = fresh
+        res["dists2"] = calls()
+    return res
 
 
 def handler(job):
